@@ -7,7 +7,7 @@ From NDN Require Import Base.Prelude Model.TlvVar Model.Name Model.Tlv Model.Pac
   Proofs.PtrsSpecView Proofs.PtrsSplit Proofs.PtrsData Proofs.PtrsAccept Proofs.PtrsDataMade
   Proofs.PtrsInterestWalk Proofs.PtrsInterest.
 Local Open Scope N_scope.
-Set Default Timeout 300.
+Set Default Timeout 900.
 Arguments N.of_nat : simpl never.
 Arguments N.to_nat : simpl never.
 
